@@ -203,4 +203,88 @@ MUTANTS = [
         "description": "FactoryPool.run adjusts once and then only sleeps",
         "edits": [("cobald/composite/factory.py", "            if supply > demand:\n                self._shrink(target=demand)\n            else:\n                self._grow(target=demand)", "            if supply > demand:\n                self._shrink(target=demand)\n            else:\n                self._grow(target=demand)\n            await trio.sleep(float(\"inf\"))")],
     },
+    {
+        "name": "c15_grow_off_by_one",
+        "properties": ["C15"],
+        "description": "FactoryPool spawns one child more when the demand is exactly covered",
+        "edits": [("cobald/composite/factory.py", "        while missing_demand > 0:", "        while missing_demand >= 0:")],
+    },
+    {
+        "name": "c15_shrink_greedy_overshoot",
+        "properties": ["C15"],
+        "description": "FactoryPool releases children greedily until the excess is gone, overshooting the request",
+        "edits": [("cobald/composite/factory.py", "            if child.demand <= excess_demand:\n                excess_demand -= child.demand\n                self._release_child(child)", "            excess_demand -= child.demand\n            self._release_child(child)")],
+    },
+    {
+        "name": "c15_release_keeps_demand",
+        "properties": ["C15"],
+        "description": "released children keep their demand",
+        "edits": [("cobald/composite/factory.py", "        child.demand = 0\n        self._hatchery.discard(child)", "        self._hatchery.discard(child)")],
+    },
+    {
+        "name": "c15_aggregate_active_only",
+        "properties": ["C15"],
+        "description": "FactoryPool aggregates supply over active children only",
+        "edits": [("cobald/composite/factory.py", "        return sum(child.supply for child in self.children)", "        return sum(child.supply for child in self._hatchery)")],
+    },
+    {
+        "name": "c15_grow_does_not_reap",
+        "properties": ["C15"],
+        "description": "children without demand are only released when the pool shrinks",
+        "edits": [("cobald/composite/factory.py", "            missing_demand -= new_child.demand\n        self._reap_children()", "            missing_demand -= new_child.demand")],
+    },
+    {
+        "name": "c15_released_child_still_active",
+        "properties": ["C15"],
+        "description": "a released child stays in the active set as well",
+        "edits": [("cobald/composite/factory.py", "        self._hatchery.discard(child)\n        self._mortuary.add(child)", "        self._mortuary.add(child)")],
+    },
+    {
+        "name": "c06_limit_priority_swapped",
+        "properties": ["C06"],
+        "description": "Standardiser applies minimum/maximum before the supply window",
+        "edits": [("cobald/decorator/standardiser.py", "        by_supply = _clamp(supply - self.backlog, value, supply + self.surplus)\n        by_limits = _clamp(self.minimum, by_supply, self.maximum)", "        by_supply = _clamp(self.minimum, value, self.maximum)\n        by_limits = _clamp(supply - self.backlog, by_supply, supply + self.surplus)")],
+    },
+    {
+        "name": "c06_getter_always_resyncs",
+        "properties": ["C06"],
+        "description": "Standardiser.demand always reports the target's (rounded) demand",
+        "edits": [("cobald/decorator/standardiser.py", "        if abs(self._demand - self.target.demand) >= self.granularity:", "        if True:")],
+    },
+    {
+        "name": "c06_rounds_up",
+        "properties": ["C06"],
+        "description": "Standardiser rounds up to the granularity",
+        "edits": [("cobald/decorator/standardiser.py", "    return n // base * base", "    return -(-n // base) * base")],
+    },
+    {
+        "name": "c06_floor_after_clamp_only_when_larger",
+        "properties": ["C06"],
+        "description": "the granularity floor is applied after clamping (may undercut the minimum)",
+        "edits": [("cobald/decorator/standardiser.py", "            self.target.demand = self._clamp_demand(_floor(value, self.granularity))", "            self.target.demand = _floor(self._clamp_demand(value), self.granularity)")],
+    },
+    {
+        "name": "c07_uniform_integer_division",
+        "properties": ["C07"],
+        "description": "UniformComposite distributes demand with floor division",
+        "edits": [("cobald/composite/uniform.py", "            pool.demand = value / child_count", "            pool.demand = value // child_count")],
+    },
+    {
+        "name": "c07_weighted_fallback_always_one",
+        "properties": ["C07"],
+        "description": "WeightedComposite reports fitness 1.0 whenever the weights vanish",
+        "edits": [("cobald/composite/weighted.py", "        return 0.0 if self.supply > 0 else 1.0", "        return 1.0")],
+    },
+    {
+        "name": "c07_weighted_demand_by_supply_only",
+        "properties": ["C07"],
+        "description": "WeightedComposite always distributes demand by supply, whatever the configured weight",
+        "edits": [("cobald/composite/weighted.py", "                pool.demand = value * getattr(pool, self._weight) / self._total_weight", "                pool.demand = value * pool.supply / self._total_weight")],
+    },
+    {
+        "name": "c07_weighted_readback_is_sum",
+        "properties": ["C07"],
+        "description": "WeightedComposite.demand reads back the sum of the children's demands",
+        "edits": [("cobald/composite/weighted.py", "    def demand(self):\n        return self._demand", "    def demand(self):\n        return sum(child.demand for child in self.children)")],
+    },
 ]
